@@ -65,6 +65,58 @@ theorem no_deadlock_no_ub (sz n : Nat) (ops : List Op) :
 
 example : (step 8 (St.init 1) (.get 0 0)).1 = .fault .badHandle := by decide
 
+theorem nextPow2_le_of_le {k : Nat} (h : k ≤ 2 ^ 63) : nextPow2 k ≤ usizeMax := by
+  unfold nextPow2
+  split
+  · decide
+  · rename_i h1
+    have hne : k - 1 ≠ 0 := by omega
+    have hlt : (k - 1).log2 < 63 := (Nat.log2_lt hne).mpr (by omega)
+    have : 2 ^ ((k - 1).log2 + 1) ≤ 2 ^ 63 := Nat.pow_le_pow_right (by omega) (by omega)
+    have hu : (2 : Nat) ^ 63 ≤ usizeMax := by decide
+    omega
+
+/-- T1, the panic quantified: in any reachable state an operation panics only
+    if a capacity computation overflows `usize`, and that needs the lists to
+    hold (or the operation to bring) more than 2^62 elements:
+    `2 * live + size(op) > 2^63`. Below that, `refines_vec`'s hypothesis holds. -/
+theorem panic_only_when_huge (sz n : Nat) (ops : List Op) (op : Op)
+    (h : (step sz (runSt sz (St.init n) ops) op).1 = .fault .panic) :
+    2 ^ 63 < 2 * (runSt sz (St.init n) ops).live + opSize op := by
+  have inv := Inv_runSt ops (Inv_init sz n)
+  rcases good_step inv (Rel_abs _) op with ⟨_, _, k, hk1, hk2⟩ | ⟨h1, _, _, _⟩
+  · by_cases hb : k ≤ 2 ^ 63
+    · have := nextPow2_le_of_le hb; omega
+    · omega
+  · rw [eraseCap_fault h] at h1
+    have := specStep_fault_bad _ _ h1.symm
+    cases this
+
+example : (step 8 (St.init 1) (.fromVec 0 [1, 2, 3])).1 = .unit ∧ opSize (.fromVec 0 [1, 2, 3]) = 3 := by decide
+
+/-- the tie for the single-list operations: in the source every one of these
+    `ErasedList` methods is exactly one call of the `RawList` method of the same
+    name under `self`'s lock (no second `lock()`), which is what `withLock`
+    models; a method that starts calling something else changes the generated
+    list and this stops checking -/
+theorem single_lock_ops_as_modelled :
+    Gen.ListLocks.singleLockOps =
+      [("push", "push"), ("get", "get"), ("swap", "swap"), ("len", "len"), ("capacity", "capacity"),
+       ("is_empty", "is_empty"), ("contains", "contains"), ("index", "index")] := rfl
+
+example : Gen.ListLocks.singleLockOps.length = 8 := rfl
+
+/-- the lock facts the theorems above were checked against -/
+theorem lock_facts_as_proved :
+    Gen.ListLocks.typedEqLocks = [.self_, .other] ∧ Gen.ListLocks.erasedEqLocks = [.self_, .other] ∧
+      Gen.ListLocks.typedEqCompare = (0, 1) ∧ Gen.ListLocks.erasedEqCompare = (0, 1) ∧
+      Gen.ListLocks.typedEqShortcut = true ∧ Gen.ListLocks.erasedEqShortcut = true ∧
+      Gen.ListLocks.concatSteps =
+        [.lock .self_, .allocNew, .lockNew, .extendFrom .self_, .unlock .self_, .lock .other,
+         .extendFrom .other, .unlock .other, .unlockNew] := by decide
+
+example : Gen.ListLocks.concatSteps.length = 9 := by decide
+
 /-! ### T2 — representation invariants -/
 
 /-- T2 `invariants`. After any history, every live list has `len` = number of
@@ -86,6 +138,33 @@ theorem invariants (sz n : Nat) (ops : List Op) (a : Nat) (l : RawList)
 
 example : (runSt 1 (St.init 1) [.new 0, .push 0 7]).getAlloc 0
     = some { len := 1, cap := 8, elems := [7], locked := false, rc := 1 } := by decide
+
+/-- T2, capacity never shrinks, and more: along any history allocations are
+    never revived — a list that is alive at the end was alive at every earlier
+    point since its creation — and its capacity never went down. -/
+theorem capacity_never_shrinks (sz n : Nat) (ops more : List Op) (a : Nat) (l' : RawList)
+    (ha : a < (runSt sz (St.init n) ops).allocs.length)
+    (hl' : (runSt sz (runSt sz (St.init n) ops) more).getAlloc a = some l') :
+    ∃ l, (runSt sz (St.init n) ops).getAlloc a = some l ∧ l.cap ≤ l'.cap := by
+  have inv0 := Inv_runSt ops (Inv_init sz n)
+  suffices h : ∀ (more : List Op) (s : St), Inv sz s → a < s.allocs.length →
+      (runSt sz s more).getAlloc a = some l' → ∃ l, s.getAlloc a = some l ∧ l.cap ≤ l'.cap from
+    h more _ inv0 ha hl'
+  intro more
+  induction more with
+  | nil => intro s _ _ h2; exact ⟨l', h2, Nat.le_refl _⟩
+  | cons op rest ih =>
+    intro s inv hlt h2
+    simp only [runSt] at h2
+    have hframe : CapMono s (step sz s op).2 := by
+      rcases good_step inv (Rel_abs s) op with ⟨_, hs, _⟩ | ⟨_, _, _, cm⟩
+      · rw [hs]; exact CapMono_refl s
+      · exact cm
+    have ⟨lm, hm, hc⟩ := ih _ (Inv_step inv op) (Nat.lt_of_lt_of_le hlt hframe.1) h2
+    have ⟨l, hl, hc2⟩ := hframe.2 a lm hlt hm
+    exact ⟨l, hl, Nat.le_trans hc2 hc⟩
+
+example : ((runSt 8 (St.init 1) [.fromVec 0 [1, 2, 3, 4], .push 0 5]).getAlloc 0).map (·.cap) = some 8 := by decide
 
 /-- the generated `compute_capacity` is what std's `Vec` documents: 0 for 0,
     else the next power of two, at least the size-class minimum -/
@@ -188,7 +267,7 @@ theorem concat_leaves_operands (sz n : Nat) (ops : List Op) (d a b c : Nat) (l l
     l'.elems = l.elems := by
   have inv := Inv_runSt ops (Inv_init sz n)
   have rel := Rel_abs (runSt sz (St.init n) ops)
-  rcases good_step inv rel (.concat d a b) with ⟨_, h⟩ | ⟨_, _, h3⟩
+  rcases good_step inv rel (.concat d a b) with ⟨_, h, _⟩ | ⟨_, _, h3, _⟩
   · rw [h, hl] at hl'; injection hl' with hl'; rw [hl']
   · have h1 := rel.lists c l hl
     have h2 := h3.lists c l' hl'
